@@ -372,7 +372,12 @@ func absentOrNotDirChecked(sh *kvShape, at *ssa.Call, pval ssa.Value) bool {
 			cnd, val := ssax.StripNot(cond, taken)
 			if x, eq, isN := ssax.NilTest(cnd); isN && eq != val && ssax.IsErrorType(x.Type()) {
 				if lp := sh.lookupPathOf(x, 0); lp != nil && lp == pval {
-					s.Counts["absent"] = 1
+					s.Counts["failed"] = 1 // the look-up failed: absent only once the failure is known to be ErrNotExist
+				}
+			}
+			if e, sent, isE := isErrorsIs(cnd); isE && !val && sent == "ErrNotExist" {
+				if lp := sh.lookupPathOf(e, 0); lp != nil && lp == pval {
+					s.Counts["otherfailure"] = 1
 				}
 			}
 			if e, sent, isE := isErrorsIs(cnd); isE && val && sent == "ErrNotExist" {
@@ -598,6 +603,15 @@ func isIsDirCall(cl *ssa.Call) bool {
 	}
 	callee := ssax.StaticCallee(cl)
 	return callee != nil && callee.Name() == "IsDir"
+}
+
+// isKindCall: a call of the method name (IsRegular, ...) on a FileMode / FileInfo / record value.
+func isKindCall(cl *ssa.Call, name string) bool {
+	if cl.Call.IsInvoke() {
+		return cl.Call.Method.Name() == name
+	}
+	callee := ssax.StaticCallee(cl)
+	return callee != nil && callee.Name() == name && callee.Signature.Recv() != nil
 }
 
 func r03Subtree(c *core.Ctx, p *load.Program, sh *kvShape) {
